@@ -17,11 +17,12 @@ CONSTANTS Contents,   \* set of content ids (strings)
           Paths,      \* set of path ids (strings); DirOf gives the directory chain each needs
           DirOf,      \* path id -> set of directory ids that must exist for the file ("" = cwd: none)
           InitDirs,   \* directories existing initially
+          ImagingTriples, \* set of <<data, psf, noise map>> content triples that form a valid imaging dataset
           MaxHdus,    \* bound on in-memory HDUs
           MaxDepth    \* bound on history length (bounded machine only)
 
 NoFile == "none"
-None == [cid |-> NoFile, wflip |-> FALSE]   \* "no such file" (a record, so that entries compare uniformly)
+None == [cid |-> NoFile, wflip |-> FALSE, ext |-> << >>]   \* "no such file" (a record, so that entries compare uniformly)
 
 VARIABLES fs,     \* path -> None or [cid, wflip]   (wflip: value of the flip option when the file was written)
           dirs,   \* set of existing directories
@@ -50,7 +51,7 @@ Init == \E b \in BOOLEAN :
 
 \* effect operators (pure), shared by the actions below and by the trace specification
 WriteOk(f, p, ow) == ~ (f[p] # None /\ ~ ow)
-FsAfterWrite(f, fl, c, p, ow) == IF WriteOk(f, p, ow) THEN [f EXCEPT ![p] = [cid |-> c, wflip |-> fl]] ELSE f
+FsAfterWrite(f, fl, c, p, ow) == IF WriteOk(f, p, ow) THEN [f EXCEPT ![p] = [cid |-> c, wflip |-> fl, ext |-> << >>]] ELSE f
 DirsAfterWrite(f, d, p, ow) == IF WriteOk(f, p, ow) THEN d \cup DirOf[p] ELSE d
 ReadValue(entry, fl) == [cid |-> entry.cid, flipped |-> (entry.wflip # fl)]
 
@@ -89,6 +90,52 @@ HduIn(kr, n) ==
     /\ hist' = Append(hist, [a |-> "HduIn", kind |-> kr, n |-> n])
     /\ UNCHANGED << fs, dirs, flip, hdus >>
 
+\* A multi-extension file assembled (by an external FITS tool, replacing whatever is at p) from HDUs that the library
+\* produced with hdu_for_output: HDU 0 is the n1-th in-memory HDU, HDU 1 the n2-th.
+WriteMulti(p, n1, n2) ==
+    /\ n1 \in DOMAIN hdus /\ n2 \in DOMAIN hdus
+    /\ fs' = [fs EXCEPT ![p] = [cid |-> hdus[n1].cid, wflip |-> hdus[n1].wflip, ext |-> << hdus[n2] >>]]
+    /\ dirs' = dirs \cup DirOf[p]
+    /\ res' = [a |-> "WriteMulti", ok |-> TRUE]
+    /\ hist' = Append(hist, [a |-> "WriteMulti", p |-> p, n1 |-> n1, n2 |-> n2])
+    /\ UNCHANGED << flip, hdus >>
+
+\* from_fits(..., hdu = k) of kind kr on extension k >= 1 of a multi-extension file
+HduEntry(entry, k) == IF k = 0 THEN [cid |-> entry.cid, wflip |-> entry.wflip] ELSE entry.ext[k]
+ReadFileHdu(kr, p, k) ==
+    /\ fs[p] # None /\ k >= 1 /\ k <= Len(fs[p].ext)
+    /\ Readable(kr, fs[p].ext[k].cid)
+    /\ res' = [a |-> "ReadHdu"] @@ ReadValue(fs[p].ext[k], flip)
+    /\ hist' = Append(hist, [a |-> "ReadHdu", kind |-> kr, p |-> p, hdu |-> k])
+    /\ UNCHANGED << fs, dirs, flip, hdus >>
+
+\* Imaging.output_to_fits(data_path, psf_path, noise_map_path, overwrite): three writes in the order data, psf, noise map,
+\* stopping at the first one that fails (an implementation step that is up to three specification steps)
+ImagingPaths == << "img_data", "img_psf", "img_noise" >>
+RECURSIVE FsAfterSeq(_, _, _, _, _)
+FsAfterSeq(f, fl, cs, ow, k) ==
+    IF k > Len(cs) THEN f
+    ELSE IF ~ WriteOk(f, ImagingPaths[k], ow) THEN f
+    ELSE FsAfterSeq(FsAfterWrite(f, fl, cs[k], ImagingPaths[k], ow), fl, cs, ow, k + 1)
+SeqOk(f, ow) == \A k \in 1 .. 3 : WriteOk(f, ImagingPaths[k], ow)
+WriteImaging(cd, ck, cn, ow) ==
+    /\ \A k \in 1 .. 3 : ImagingPaths[k] \in Paths
+    /\ << cd, ck, cn >> \in ImagingTriples
+    /\ fs' = FsAfterSeq(fs, flip, << cd, ck, cn >>, ow, 1)
+    /\ dirs' = dirs \cup UNION { DirOf[ImagingPaths[k]] : k \in {j \in 1 .. 3 : \A i \in 1 .. j : WriteOk(fs, ImagingPaths[i], ow)} }
+    /\ res' = [a |-> "WriteImaging", ok |-> SeqOk(fs, ow)]
+    /\ hist' = Append(hist, [a |-> "WriteImaging", cd |-> cd, ck |-> ck, cn |-> cn, ow |-> ow])
+    /\ UNCHANGED << flip, hdus >>
+
+\* Imaging.from_fits: data, noise map and psf come back as written
+ReadImaging ==
+    /\ \A k \in 1 .. 3 : ImagingPaths[k] \in Paths /\ fs[ImagingPaths[k]] # None
+    /\ << fs["img_data"].cid, fs["img_psf"].cid, fs["img_noise"].cid >> \in ImagingTriples   \* a valid dataset (positive noise, ...)
+    /\ res' = [a |-> "ReadImaging", data |-> ReadValue(fs["img_data"], flip), psf |-> ReadValue(fs["img_psf"], flip),
+                noise |-> ReadValue(fs["img_noise"], flip)]
+    /\ hist' = Append(hist, [a |-> "ReadImaging"])
+    /\ UNCHANGED << fs, dirs, flip, hdus >>
+
 SetFlip(b) ==
     /\ flip # b
     /\ flip' = b
@@ -101,6 +148,10 @@ Next == /\ Len(hist) < MaxDepth
            \/ \E kr \in Kinds, p \in Paths : ReadFile(kr, p)
            \/ \E c \in Contents : HduOut(c)
            \/ \E kr \in Kinds, n \in 1 .. MaxHdus : HduIn(kr, n)
+           \/ \E p \in Paths, n1, n2 \in 1 .. MaxHdus : WriteMulti(p, n1, n2)
+           \/ \E kr \in Kinds, p \in Paths : ReadFileHdu(kr, p, 1)
+           \/ \E cd, ck, cn \in Contents, ow \in BOOLEAN : WriteImaging(cd, ck, cn, ow)
+           \/ ReadImaging
            \/ \E b \in BOOLEAN : SetFlip(b)
 
 Spec == Init /\ [][Next]_vars
@@ -108,13 +159,17 @@ Spec == Init /\ [][Next]_vars
 -----------------------------------------------------------------------------
 (* Properties *)
 
-TypeOK == /\ \A p \in Paths : fs[p] = None \/ (fs[p].cid \in Contents /\ fs[p].wflip \in BOOLEAN)
+TypeOK == /\ \A p \in Paths : fs[p] = None \/ (fs[p].cid \in Contents /\ fs[p].wflip \in BOOLEAN /\ Len(fs[p].ext) <= 1)
           /\ dirs \subseteq UNION {DirOf[p] : p \in Paths} \cup InitDirs
 
 \* reading back under the setting that was in force on output is the identity (values, shape, orientation)
 ReadAfterWriteIsIdentity ==
     /\ (res.a = "Read" => LET p == hist[Len(hist)].p IN (fs[p].wflip = flip => ~ res.flipped))
     /\ (res.a = "HduIn" => LET n == hist[Len(hist)].n IN (hdus[n].wflip = flip => ~ res.flipped))
+    /\ (res.a = "ReadHdu" => LET e == hist[Len(hist)] IN (fs[e.p].ext[e.hdu].wflip = flip => ~ res.flipped))
+    /\ (res.a = "ReadImaging" => /\ (fs["img_data"].wflip = flip => ~ res.data.flipped)
+                                /\ (fs["img_psf"].wflip = flip => ~ res.psf.flipped)
+                                /\ (fs["img_noise"].wflip = flip => ~ res.noise.flipped))
 
 \* a file exists only inside existing directories
 FilesHaveDirectories == \A p \in Paths : fs[p] # None => DirOf[p] \subseteq dirs
@@ -124,14 +179,22 @@ NoSilentOverwrite ==
     [][\A p \in Paths :
           (fs[p] # None /\ fs'[p] # fs[p]) =>
               LET e == hist'[Len(hist')] IN
-                 /\ e.a = "Write" /\ e.p = p /\ e.ow
-                 /\ fs'[p] = [cid |-> e.c, wflip |-> flip]]_vars
+                 \/ /\ e.a = "Write" /\ e.p = p /\ e.ow
+                    /\ fs'[p] = [cid |-> e.c, wflip |-> flip, ext |-> << >>]
+                 \/ /\ e.a = "WriteImaging" /\ e.ow /\ \E k \in 1 .. 3 : ImagingPaths[k] = p
+                 \/ /\ e.a = "WriteMulti" /\ e.p = p]_vars
 \* files never disappear and nothing but Write touches the file system
 OnlyWriteTouchesFiles ==
-    [][fs' # fs => hist'[Len(hist')].a = "Write" /\ res'.ok]_vars
+    [][fs' # fs => hist'[Len(hist')].a \in {"Write", "WriteImaging", "WriteMulti"}]_vars
 \* a failed write changes nothing
 FailedWriteChangesNothing ==
     [][(res'.a = "Write" /\ ~ res'.ok /\ Len(hist') > Len(hist)) => fs' = fs /\ dirs' = dirs]_vars
+\* a failing Imaging output stops at the first path that exists: paths after it are untouched
+ImagingOutputStopsAtFirstFailure ==
+    [][(res'.a = "WriteImaging" /\ ~ res'.ok /\ Len(hist') > Len(hist)) =>
+          LET ow == hist'[Len(hist')].ow
+              j == CHOOSE i \in 1 .. 3 : ~ WriteOk(fs, ImagingPaths[i], ow) /\ \A l \in 1 .. i-1 : WriteOk(fs, ImagingPaths[l], ow)
+          IN \A k \in j .. 3 : fs'[ImagingPaths[k]] = fs[ImagingPaths[k]]]_vars
 
 \* dump of complete behaviours for replay (evaluated as an invariant during simulation; always TRUE)
 DumpBehaviour ==
